@@ -3,11 +3,11 @@ cd /verif
 echo "== clean" 
 for i in $(seq -w 1 19); do SA_NOWRITE=1 /venv/bin/python -m sa.check C$i > /tmp/o_$i.txt 2>&1 || echo "C$i FAIL $(grep -v conda /tmp/o_$i.txt | tail -3 | cut -c1-250)"; done
 echo "== benign subagent"
-timeout 3000 /venv/bin/python selftest/seeded.py benign 2>&1 | grep -v conda | cut -c1-300 | grep -v " silent$"
+timeout 12000 /venv/bin/python selftest/seeded.py benign 2>&1 | grep -v conda | cut -c1-300 | grep -v " silent$"
 echo "== benign mechanical"
 timeout 900 /venv/bin/python selftest/benign.py 2>&1 | grep -v conda | cut -c1-200
 echo "== seeded detect"
-timeout 5000 /venv/bin/python selftest/seeded.py detect 2>&1 | grep -v conda | grep -v DETECTED | cut -c1-250
+timeout 12000 /venv/bin/python selftest/seeded.py detect 2>&1 | grep -v conda | grep -v DETECTED | cut -c1-250
 echo "== regress"
 timeout 3000 /venv/bin/python selftest/regress.py 2>&1 | grep -v conda | grep -v " ok$"
 echo "== corpus"
